@@ -58,7 +58,22 @@ BASE_MAPPERS = {
 def compared_constants(fn, attr: str | None, name: str | None = None):
     """String constants compared (==, in [...]) with `<x>.<attr>` (or with Name `name`)."""
     out = set()
+
+    def pat_consts(pat):
+        if isinstance(pat, ast.MatchValue) and isinstance(pat.value, ast.Constant) and isinstance(pat.value.value, str):
+            yield pat.value.value
+        elif isinstance(pat, ast.MatchOr):
+            for sub in pat.patterns:
+                yield from pat_consts(sub)
+        elif isinstance(pat, ast.MatchAs) and pat.pattern is not None:
+            yield from pat_consts(pat.pattern)
     for n in ast.walk(fn):
+        if hasattr(ast, "Match") and isinstance(n, ast.Match):
+            sj = n.subject
+            if (attr and isinstance(sj, ast.Attribute) and sj.attr == attr) or (name and isinstance(sj, ast.Name) and sj.id == name):
+                for case in n.cases:
+                    out |= set(pat_consts(case.pattern))
+            continue
         if isinstance(n, ast.Compare) and len(n.ops) == 1:
             l, r = n.left, n.comparators[0]
             hit = (attr and isinstance(l, ast.Attribute) and l.attr == attr) or (name and isinstance(l, ast.Name) and l.id == name)
